@@ -106,6 +106,8 @@ def run_case(case: dict, st=None) -> Tuple[List[dict], str]:
         from pyimpspec.analysis.zhit.smoothing import _smooth_phase
 
         x = np.linspace(10, -3, 41)
+        if case.get("xgrid") == "uneven":
+            x = 10 - 13 * (np.arange(41) / 40.0) ** 1.7   # same end points, uneven spacing (only for the filter that is given x: lowess)
         y = np.full(41, -0.7) if case["shape"] == "constant" else 0.03 * x - 0.5
         m, p = case["np_order"]
         try:
@@ -117,7 +119,7 @@ def run_case(case: dict, st=None) -> Tuple[List[dict], str]:
             return viols, "violation"
         err = float(np.max(np.abs(out - y)))
         if not err <= 1e-10:
-            viol(f"filter-changes-{case['shape']}-data|{case['smoothing']}", f"{case['smoothing']} filter (m={m}, p={p}) changes exactly {case['shape']} phase data by {err:.3g}")
+            viol(f"filter-changes-{case['shape']}-data|{case['smoothing']}" + ("|uneven-grid" if case.get("xgrid") else ""), f"{case['smoothing']} filter (m={m}, p={p}) changes exactly {case['shape']} phase data by {err:.3g}")
         return viols, "ok"
     if part == "window":
         from pyimpspec.analysis.zhit import weights as W
@@ -267,6 +269,11 @@ def cases(thorough: bool) -> List[dict]:
         out.append({"part": "constant-phase", "spec": sp, "default_call": True})
         for win, center, width in itertools.product(("boxcar", "hann", "blackman"), (0.5, 1.5, 2.5), (2.0, 3.0)):
             out.append({"part": "constant-phase", "spec": sp, "window": win, "center": center, "width": width, "smoothing": "none", "interpolation": "pchip"})
+        # windows that give no point a positive weight (beyond the spectrum; between two points; only the zero edges of a hann window
+        # coincide with points): a refusal or the exact modulus, never an un-offset reconstruction
+        for win, center, width in (("boxcar", 8.0, 1.0), ("hann", -6.0, 2.0), ("boxcar", 1.5, 0.02), ("hann", 1.5 + 1 / 14.0, 2 / 7.0)):
+            for adm in (False, True):
+                out.append({"part": "constant-phase", "spec": sp, "window": win, "center": center, "width": width, "smoothing": "none", "interpolation": "pchip", "adm": adm})
     # (4) ladders
     for sp in LADDERS:
         out.append({"part": "ladder", "spec": sp})
@@ -288,6 +295,8 @@ def cases(thorough: bool) -> List[dict]:
     # (6) filters on exactly constant / linear phase
     for sm, npo, shape in itertools.product(SMOOTHERS, NP_ORDER + [(9, 4), (7, 2)], ("constant", "linear")):
         out.append({"part": "filters", "smoothing": sm, "np_order": npo, "shape": shape})
+        if sm == "lowess":
+            out.append({"part": "filters", "smoothing": sm, "np_order": npo, "shape": shape, "xgrid": "uneven"})
     # (7) window generator
     wins = ["boxcar", "hann", "hamming", "blackman", "bartlett", "flattop", "nuttall", "cosine", "triang", "parzen", "bohman", "barthann", "blackmanharris"]
     for win, center, width in itertools.product(wins, (0.0, 1.5, 3.0), (1.0, 3.0, 4.5)):
